@@ -468,7 +468,24 @@ def finding_key(rule, stmt, prob):
     cls = finding_class(rule, kind, prob["inputs"], stmt["ctx"])
     if cls == "whole-operand" and rk != "any-rule":
         rk = "aggregate"              # which aggregate functions expose a whole-operand defect depends on the data, not on the defect
-    return "C28:%s:%s:%s:%s" % (rk, FINDING_OP.get(stmt["op"], stmt["op"]), cls, kind)
+    key = "C28:%s:%s:%s:%s" % (rk, FINDING_OP.get(stmt["op"], stmt["op"]), cls, kind)
+    if kind == "wrong-value" and rule is not None and rule.fn == "avg" and stmt["ctx"] == "join":
+        # which wrong value: the pairwise fold of the operands from the left (the engine's vp_reduce_refs), from the
+        # right, or something else -- part of the finding's identity, so that another wrong value is another finding
+        vs = [v for v in prob["inputs"] if v is not ABSENT and v is not None]
+        if len(vs) >= 3 and isinstance(prob.get("got"), (int, float)):
+            left = vs[0]
+            for v in vs[1:]:
+                left = (left + v) / 2.0
+            right = vs[-1]
+            for v in reversed(vs[:-1]):
+                right = (v + right) / 2.0
+            got = float(prob["got"])
+            if abs(got - left) < 1e-9:
+                key += ":pairwise-left-fold"        # (also when the data cannot tell the two folds apart)
+            elif abs(got - right) < 1e-9:
+                key += ":pairwise-right-fold"
+    return key
 
 
 def candidate(rec, key, rank, payload):
